@@ -12,9 +12,12 @@ EXTENDS NexusReaderCtl
 CONSTANTS Quick, PumpK, MaxSpan
 A == IF Quick THEN ClassRepsQ("nexus") ELSE ClassReps("nexus")
 K == IF Quick THEN KeywordsQ("nexus") ELSE Keywords("nexus")
-Edited(d) == EditedDoc(d, "nexus", Quick, MaxSpan)
+\* quick tier: the long multi-block document is model-checked on truncations, deletions and LINK insertions only
+Edited(d) == IF Quick /\ Len(d) > LongDoc THEN Truncations(d) \cup Deletions(d) \cup Insertions(d, {"LINK"})
+             ELSE EditedDoc(d, "nexus", Quick, MaxSpan)
+PumpDocs == IF Quick THEN {NxTaxaTrees, NxDataInterleaved, NxTranslate} ELSE DocsOf("nexus")
 Pumped(d) == {Pump(d, i, t, PumpK) : i \in 0..Len(d), t \in {"[c]", "(", ","}}
-MCInputs == UNION {Edited(d) \cup Pumped(d) : d \in DocsOf("nexus")}
+MCInputs == UNION {Edited(d) \cup (IF d \in PumpDocs THEN Pumped(d) ELSE {}) : d \in DocsOf("nexus")}
 \* the inputs on which the shipped code is known to misbehave (as-shipped configurations: small and fast)
 ShippedInputs == UNION {Truncations(d) \cup Insertions(d, {"LINK", "CHARSET"}) \cup Pumped(d) \cup {Cut(d, 5, 9)}
                         : d \in {NxTaxaTrees, NxDataInterleaved, NxSets}}
